@@ -303,6 +303,7 @@ func init() {
 	addScoped("C09", "S4", in("internal_planner"), "(S4) an in-process stage stores into an entry's label map only after excluding marker / error entries, whose map is nil.")
 	addScoped("C09", "S3", in("internal_planner"), "(S3) an in-process stage that changes the labels of an entry stores the fingerprint of the new label set on every path, so distinct label sets stay distinct series and equal ones are one.")
 	addScoped("C11", "D10", in("reader/traceql/"), d10)
+	addScoped("C11", "D12", in("reader/traceql"), "(D12) positions read from the term interning table and positions derived from the term list length are stored into plan nodes with one base.")
 	addScoped("C11", "D11", in("reader/traceql/"), "(D11) an attribute aggregate's operand rows are kept by an unconditional `key == attr` alternative of the scan filter, for the same attribute.")
 	o4 := "(O4) the arrays of a chunk that was handed to the insert path by a channel send are never re-sliced into the next chunk."
 	addScoped("C03", "O4", in(""), o4)
